@@ -359,9 +359,9 @@ func TestC06EndBlock(t *testing.T) {
 			if len(rs) > 6 {
 				rs = rs[:6]
 			}
-			if i%40 == 7 && q == 0 {
+			if i%20 == 7 && q == 0 {
 				// a round with more than a hundred reporters (every one of them must be aggregated)
-				m := pick(r, 100, 101, 130)
+				m := []int{101, 130, 100, 117}[(i/20)%4]
 				rs = nil
 				for j := 0; j < m; j++ {
 					rs = append(rs, aggRep{who: j, power: uint64(1 + r.Intn(9)), value: fmt.Sprintf("%04x", 1000+r.Intn(60)), blk: uint64(1 + r.Intn(50))})
